@@ -193,6 +193,73 @@ func insertMix(r *lib.Rng, ops []Op, nchan int, count int, illegal bool) []Op {
 
 // ---------------------------------------------------------------- cases
 
+// beforeRun makes a short uninterrupted run (one or two reads, sometimes a mix request, trigger flags that may
+// stay high at the end) with the given geometry, for the same source object
+func beforeRun(r *lib.Rng, ncols, nrows, rate int) Case {
+	sp := streamSpec{ncols: ncols, nrows: nrows, nframes: r.Range(4, 7), values: r.Pick([]int{0, 2}), flags: r.Pick([]int{0, 1, 2, 3})}
+	s := makeStream(r, sp)
+	fs := 4 * ncols * nrows
+	c := Case{Ncols: ncols, Nrows: nrows, Nsamp: r.Pick([]int{1, 2, 3}), Rate: rate, GapPos: -1, Kind: "before", Stream: hex.EncodeToString(s)}
+	if r.Bool() {
+		c.Ops = []Op{{Op: "C", N: len(s), T: 1}}
+	} else {
+		n := 3*fs + r.Range(0, fs)
+		c.Ops = []Op{{Op: "C", N: n, T: 1}, {Op: "C", N: len(s) - n, T: 2}}
+	}
+	if r.Chance(1, 2) {
+		c.Ops = insertMix(r, c.Ops, 2*ncols*nrows, 1, false)
+	}
+	return c
+}
+
+// addBefore puts one or two earlier runs in front of the case: the same geometry, a transposed or re-shaped
+// geometry with the same number of channels, or another number of channels
+func addBefore(r *lib.Rng, c Case) Case {
+	W := c.Ncols * c.Nrows
+	n := r.Pick([]int{1, 1, 2})
+	last := int64(0)
+	for k := 0; k < n; k++ {
+		nc, nr := c.Ncols, c.Nrows
+		switch r.Intn(5) {
+		case 0: // same shape
+		case 1, 2: // same channel count, other shape
+			var shapes [][2]int
+			for a := 1; a <= W/2; a++ {
+				if W%a == 0 && W/a >= 2 && a != c.Ncols {
+					shapes = append(shapes, [2]int{a, W / a})
+				}
+			}
+			if len(shapes) > 0 {
+				sh := shapes[r.Intn(len(shapes))]
+				nc, nr = sh[0], sh[1]
+			} else {
+				nc, nr = c.Ncols, c.Nrows+1
+			}
+		case 3:
+			nc, nr = r.Range(1, 3), r.Range(2, 4)
+		default:
+			nc, nr = c.Nrows, c.Ncols // transposed when that is a legal geometry
+			if nr < 2 {
+				nc, nr = c.Ncols, c.Nrows
+			}
+		}
+		b := beforeRun(r, nc, nr, c.Rate)
+		for _, o := range b.Ops {
+			if o.T > last {
+				last = o.T
+			}
+		}
+		c.Before = append(c.Before, b)
+	}
+	// the card's time stamps keep increasing over the runs
+	for i := range c.Ops {
+		if c.Ops[i].Op == "C" {
+			c.Ops[i].T += 2
+		}
+	}
+	return c
+}
+
 func geometry(r *lib.Rng, tier string) (int, int) {
 	ncols := r.Pick([]int{1, 1, 2, 2, 2, 3, 3, 4})
 	nrows := r.Pick([]int{2, 2, 2, 3, 3, 4, 5, 8})
@@ -448,7 +515,7 @@ func whole(fs, frames, per int, t0 int64) []Op {
 	return ops
 }
 
-func corpus() []Case {
+func corpus(tier string) []Case {
 	r := lib.NewRng(4004)
 	var out []Case
 	// 1. external-trigger witness: ncols=2, nrows=3, the flag rises in frame 1 row 2 -> count 5 (the unchanged tree said 6)
@@ -476,6 +543,9 @@ func corpus() []Case {
 		c := Case{Ncols: 2, Nrows: 3, Nsamp: 1, Rate: 50, GapPos: pos, GapLen: glen, Kind: "corpus", Stream: hex.EncodeToString(cut)}
 		for k := 0; k < len(cut)/240; k++ {
 			c.Ops = append(c.Ops, Op{Op: "C", N: 240, T: int64(k + 1)})
+		}
+		if pl[1] == 42 { // a known finding: every failing case is shrunk by bin/check, keep it short
+			c.Ops = c.Ops[:3]
 		}
 		out = append(out, c)
 	}
@@ -508,8 +578,9 @@ func corpus() []Case {
 			{Op: "M", Ch: []int{1, 5}, Fr: []float64{0, 3.3}}, ops[2], {Op: "M", Ch: []int{2}, Fr: []float64{1}}, ops[3]}
 		out = append(out, c)
 	}
-	// 8. a word-aligned gap in the middle of a read
-	{
+	// 8. a word-aligned gap in the middle of a read (a recorded finding, like 9: thorough tier only, to keep the
+	//    quick tier inside its time budget - every failing case is shrunk)
+	if tier == "thorough" {
 		sp := streamSpec{ncols: 2, nrows: 3, nframes: 30, values: 2, flags: 1}
 		s := makeStream(r, sp)
 		pos, glen := 240+5*24+8, 16
@@ -552,24 +623,48 @@ func corpus() []Case {
 			{Op: "C", N: 64, T: 5, Q: true}, {Op: "C", N: 100, T: 6, Q: true}, {Op: "C", N: 60, T: 7, Q: true}, {Op: "C", N: 60, T: 8}}
 		out = append(out, c)
 	}
+	// 12. three runs on one source object: 2 columns x 4 rows (with a mix request), then 4 x 2 (the same 16
+	//     channels, another channel order), then 1 x 3; the trigger flag is high when the first run stops
+	{
+		mk := func(nc, nr, nf, flags int, ops func(fs, n int) []Op) Case {
+			sp := streamSpec{ncols: nc, nrows: nr, nframes: nf, values: 2, flags: flags}
+			s := makeStream(r, sp)
+			return Case{Ncols: nc, Nrows: nr, Nsamp: 2, Rate: 1000, GapPos: -1, Kind: "corpus", Stream: hex.EncodeToString(s),
+				Ops: ops(4*nc*nr, len(s))}
+		}
+		a := mk(2, 4, 6, 3, func(fs, n int) []Op {
+			return []Op{{Op: "M", Ch: []int{1, 9}, Fr: []float64{0.5, 3}}, {Op: "C", N: 4 * fs, T: 1}, {Op: "C", N: n - 4*fs, T: 2}}
+		})
+		b := mk(4, 2, 8, 2, func(fs, n int) []Op { return []Op{{Op: "C", N: 5*fs + 6, T: 3}, {Op: "C", N: n - 5*fs - 6, T: 4}} })
+		c := mk(1, 3, 9, 1, func(fs, n int) []Op {
+			return []Op{{Op: "C", N: 4 * fs, T: 5}, {Op: "M", Ch: []int{3}, Fr: []float64{-0.25}}, {Op: "C", N: n - 4*fs, T: 6}}
+		})
+		c.Before = []Case{a, b}
+		out = append(out, c)
+	}
 	return out
 }
 
 func gen(seed uint64, tier string) []interface{} {
 	r := lib.NewRng(seed)
-	n := 180
+	n := 140
 	if tier == "thorough" {
 		n = 5000
 	}
 	var out []interface{}
 	id := int64(1)
-	for _, c := range corpus() {
+	for _, c := range corpus(tier) {
 		c.ID = id
 		id++
 		out = append(out, c)
 	}
 	for i := 0; i < n; i++ {
-		out = append(out, genCase(r.Fork(), id, tier))
+		rr := r.Fork()
+		c := genCase(rr, id, tier)
+		if rr.Chance(1, 5) && c.Kind != "malformed" {
+			c = addBefore(rr, c)
+		}
+		out = append(out, c)
 		id++
 	}
 	return out
